@@ -283,6 +283,22 @@ Lemma illformed_report_refutes :
   mon_last (run (init true) wit_illformed) = false.
 Proof. vm_compute. repeat split; reflexivity. Qed.
 
+(* the hypothesis "the registered connection has reported after the last user operation"
+   is needed, and its negation is a stable point of the real system: pairing completed,
+   everything delivered in order, then CancelPairingWithSKI — the connection ignores the
+   abort request (not pending), stays registered and silent; the application was told
+   None, the hub answers Completed *)
+Definition wit_cancel_ignored : list ev :=
+  [ERegister; EConnReg; EReport 1 0; EDeliver 0; EReport 38 0; EDeliver 0; ECancel; EAsk].
+Lemma cancel_ignored_refutes :
+  in_order (init true) wit_cancel_ignored = true /\ wf_reports wit_cancel_ignored = true /\
+  pending (run (init true) wit_cancel_ignored) = [] /\
+  cancel_ignored (run (init true) wit_cancel_ignored) wit_cancel_ignored = true /\
+  map n_st (rev (log (run (init true) wit_cancel_ignored))) = [1; 2; 7; 0] /\
+  fst (answer (run (init true) wit_cancel_ignored)) = ConnectionStateCompleted /\
+  mon_last (run (init true) wit_cancel_ignored) = false.
+Proof. vm_compute. repeat split; reflexivity. Qed.
+
 (* the hypotheses are satisfiable by a real history: register (Queued, synchronous), dial,
    handshake to completion, every notification delivered in order; 7 notifications *)
 Definition ex_success : list ev :=
